@@ -97,6 +97,7 @@ func scenarioX(H int, withNoPub bool, shapes []int, msgsPerTopic, c int, inFligh
 			return
 		}
 		var invs []*invocation
+		running := map[int]int{} // goroutine -> handler whose function it ran last (the router publishes from that goroutine)
 		ctxFail := func(what, got, want string, w wiring) {
 			if got != want {
 				vs.Fail("context", "handler %s: %s in context is %q, expected %q", w.name, what, got, want)
@@ -114,6 +115,7 @@ func scenarioX(H int, withNoPub bool, shapes []int, msgsPerTopic, c int, inFligh
 					ctxFail("publisher name", message.PublisherNameFromCtx(ctx), pubs[w.pub].String(), w)
 				}
 				iv := &invocation{h: hi, uuid: m.UUID}
+				running[vs.Self()] = hi
 				switch w.shape {
 				case 1:
 					iv.outs = hx.Outputs(m, 1)
@@ -154,8 +156,26 @@ func scenarioX(H int, withNoPub bool, shapes []int, msgsPerTopic, c int, inFligh
 		// produced messages carry the producing handler's context when they reach the publisher
 		for pi, p := range pubs {
 			pi, p := pi, p
-			p.Probe = func(c *hx.PubCall) string {
-				for _, m := range c.Msgs {
+			p.Probe = func(call *hx.PubCall) string {
+				// every produced message (fresh, the consumed one passed through, or an object shared between
+				// handlers) carries the context of the handler that is publishing it
+				if hi, ok := running[vs.Self()]; ok {
+					w := ws[hi]
+					for _, m := range call.Msgs {
+						if m == shared && c > 0 {
+							// an object returned by two handlers at once has one context: which handler's
+							// values it shows while both are publishing is decided only without preemptions
+							continue
+						}
+						ctx := m.Context()
+						ctxFail("handler name on a produced message", message.HandlerNameFromCtx(ctx), w.name, w)
+						ctxFail("subscribe topic on a produced message", message.SubscribeTopicFromCtx(ctx), topics[w.topic], w)
+						ctxFail("subscriber name on a produced message", message.SubscriberNameFromCtx(ctx), subs[w.sub].String(), w)
+						ctxFail("publish topic on a produced message", message.PublishTopicFromCtx(ctx), ptopics[w.ptopic], w)
+						ctxFail("publisher name on a produced message", message.PublisherNameFromCtx(ctx), pubs[w.pub].String(), w)
+					}
+				}
+				for _, m := range call.Msgs {
 					hn := m.Metadata.Get("handler")
 					if hn == "" {
 						continue
@@ -163,8 +183,8 @@ func scenarioX(H int, withNoPub bool, shapes []int, msgsPerTopic, c int, inFligh
 					if got := message.HandlerNameFromCtx(m.Context()); got != hn {
 						vs.Fail("context", "produced message of %s reaches publisher p%d with handler name %q in its context", hn, pi, got)
 					}
-					if got := message.PublishTopicFromCtx(m.Context()); got != c.Topic {
-						vs.Fail("context", "produced message of %s published on %q has publish topic %q in its context", hn, c.Topic, got)
+					if got := message.PublishTopicFromCtx(m.Context()); got != call.Topic {
+						vs.Fail("context", "produced message of %s published on %q has publish topic %q in its context", hn, call.Topic, got)
 					}
 				}
 				return ""
